@@ -2114,6 +2114,8 @@ func c5Fits(l BaseLimit, v c5Vec) bool {
 		v[3] <= int64(l.ConnsInbound) && v[4] <= int64(l.ConnsOutbound) && v[3]+v[4] <= int64(l.Conns) && v[5] <= int64(l.FD)
 }
 
+var c5Replay bool
+
 func c03Sampled(t testing.TB, out *verifh.Out, rd *verifh.Rand, workers, steps int) {
 	cfg := c03BaseCfg()
 	// tight enough that every kind of scope refuses now and then, so that the undo of a charged
@@ -2476,6 +2478,10 @@ func c03Sampled(t testing.TB, out *verifh.Out, rd *verifh.Rand, workers, steps i
 		return r
 	}
 	chosen := append(append(thin(bad, 10), thin(midfl, 120)...), thin(quiet, 30)...)
+	if c5Replay {
+		// replay mode re-judges every emitted case inside coqc as well: keep the cases few
+		chosen = append(thin(bad, 22), thin(midfl, 2)...)
+	}
 	sort.Ints(chosen)
 	njudged := len(chosen)
 	// the samples go out in cases of at most 24 (short enough for the vm_compute cross-check of
@@ -2743,7 +2749,8 @@ func TestVerifC03Replay(t *testing.T) {
 	if len(toks) > 0 && toks[0] == 5 {
 		// a concurrent run is not replayable step by step: run fresh ones
 		rd := verifh.NewRand(verifh.Seed())
-		for i := 0; i < 20; i++ {
+		c5Replay = true
+		for i := 0; i < 12; i++ {
 			c03Sampled(t, out, rd.Fork(), 8, 200)
 		}
 		return
